@@ -50,6 +50,9 @@ CLAIMED = {
  "C03": ("TLA+ specification of admissible damage (Recovery.tla): TLC checks the property's precondition on every reachable state and enumerates every (file, victim, edit); each damaged file replayed into the real parser",
          "TLC enumerates all ordered pairs of 12 definition templates x every victim with a brace-delimited body x every single edit (insert/delete/replace at every position strictly inside the outermost braces with every non-opening lexeme) and seeded two-edit damages in files of three definitions, checking on the model that braces stay balanced and no opener is introduced; the real parser must recognise every other definition with the same kind, name and text in the same order and report every syntax error inside the victim's span.",
          "victims are definitions with a brace-delimited body; opening delimiters excluded from the damage alphabet are ( [ { << # and the string/comment openers (DESIGN 4 C03)", "4 C03, 3.5"),
+ "C17": ("explicit TLA+ model of project layouts (Layout.tla) + TLC model checking (BFS exhaustive small scope, -simulate beyond) as a generator of annotated configurations; black-box conformance replay against the server binary over LSP",
+         "TLC enumerates all Layout configurations of a small scope and simulates larger ones (up to 4 packages: root, registry and path dependencies, nested module directories, equal module names, free-standing file, open orders), checking on the model that Resolve is a function into own + direct dependencies, RootOf is the unique longest-prefix root and ModuleName is injective per package; every configuration is materialised on disk and every import use site / rename gate / free-file query is compared with the specification's prediction through the real server (definition targets, prepareRename, rename edit locality).",
+         "oracle compares files, not offsets; unresolved imports may answer null or error; two genuine defects recorded as known findings (see known_findings.d/C17.json)", "4 C17, 3.10"),
 }
 NOT_YET = "check not built yet in this revision of /verif (work in progress; see DESIGN.md section 8)"
 
